@@ -248,36 +248,6 @@ Fixpoint exec (v : variant) (tl : N) (st : cstate) (ops : list op) : cstate :=
 (* where the wrapper's reader stands: the Blob's cursor minus what is still buffered *)
 Definition lpos (st : cstate) : Z := (pos st - Z.of_N (rlen (rbuf st)))%Z.
 
-Lemma ra_seek_cur_repaired_lemma : forall v tl st off, fix17 v = true -> (0 <= lpos st + off)%Z ->
-  fst (fst (ra_seek v tl st off 1)) = (lpos st + off)%Z /\
-  pos (snd (ra_seek v tl st off 1)) = (lpos st + off)%Z /\ rbuf (snd (ra_seek v tl st off 1)) = [].
-Proof.
-  intros v tl st off Hv Hp. unfold ra_seek, blob_seek, lpos in *. rewrite Hv. cbn [andb Z.eqb].
-  change (pos (set_buf st [] E_OK)) with (pos st).
-  destruct (pos st + (off - Z.of_N (rlen (rbuf st))) <? 0)%Z eqn:E; [apply Z.ltb_lt in E; lia|].
-  cbn. rewrite E. cbn. repeat split; try lia; auto.
-Qed.
-
-Lemma ra_seek_set_lemma : forall v tl st off, (0 <= off)%Z ->
-  fst (fst (ra_seek v tl st off 0)) = off /\ pos (snd (ra_seek v tl st off 0)) = off /\ rbuf (snd (ra_seek v tl st off 0)) = [].
-Proof.
-  intros v tl st off Hp. unfold ra_seek, blob_seek. rewrite andb_false_r. cbn [Z.eqb].
-  destruct (off <? 0)%Z eqn:E; [apply Z.ltb_lt in E; lia|]. cbn. rewrite ?E. cbn. auto.
-Qed.
-
-Lemma ra_seek_end_lemma : forall v tl st f off, R tl st f -> (0 <= Z.of_N (slen f) + off)%Z ->
-  fst (fst (ra_seek v tl st off 2)) = (Z.of_N (slen f) + off)%Z /\
-  pos (snd (ra_seek v tl st off 2)) = (Z.of_N (slen f) + off)%Z /\ rbuf (snd (ra_seek v tl st off 2)) = [].
-Proof.
-  intros v tl st f off HR Hp. unfold ra_seek, blob_seek. rewrite andb_false_r. cbn [Z.eqb].
-  destruct (byte_length tl (set_buf st [] E_OK)) as [l st1] eqn:Hb.
-  assert (S2 : rbuf st1 = []).
-  { destruct (byte_length_spec tl _ l st1 ltac:(destruct (R_set_buf tl st f [] E_OK HR) as (_ & C & _); exact C) Hb)
-      as (_ & _ & _ & (_ & S2 & _) & _). exact S2. }
-  destruct (byte_length_R tl _ f l st1 (R_set_buf tl st f [] E_OK HR) Hb) as (-> & Hpos & HR1).
-  destruct (Z.of_N (slen f) + off <? 0)%Z eqn:E; [apply Z.ltb_lt in E; lia|]. cbn. rewrite ?E. cbn. repeat split; auto.
-Qed.
-
 Lemma res_ok_repaired_err : forall l1 l2, Forall2 (res_ok repaired) l1 l2 -> map r_err l1 = map s_err l2.
 Proof.
   intros l1 l2 H. induction H as [|a s ra rs Ha Hr IH]; cbn [map]; auto.
